@@ -7,6 +7,7 @@ counted and reported.  Output: <out>/acpi_verus.rs and <out>/map.json (generated
 function / clause / property tags).
 """
 import copy
+import alpha
 import json
 import os
 import re
@@ -763,6 +764,9 @@ class Splicer:
         self.modules = modules
         self.uncovered = []
         self.degrade = {}
+        self.baseline = {}
+        self.baseline_out = None
+        self._fq_seen = {}
         self.packed = []
         self.enums = []
 
@@ -1071,6 +1075,18 @@ class Splicer:
         if dg is not None:
             degrade_reason = dg
         else:
+            occ = self._fq_seen.get(fq, 0)
+            self._fq_seen[fq] = occ + 1
+            bkey = '%s#%d' % (fq, occ)
+            if self.baseline_out is not None:
+                self.baseline_out[bkey] = it.body
+            if self.baseline.get(bkey) is not None and it.body != self.baseline[bkey]:
+                restored, ren = alpha.alpha_restore(it.body, self.baseline[bkey])
+                if ren:
+                    it = copy.copy(it)
+                    it.body = restored
+                    rec['alpha_renamed'] = ren
+                    out.count('D27 body-local variables renamed back to the names of the proof script (alpha-equivalent)')
             if nohints_reason is None:
                 try:
                     body = self.rewrite_body(it, key, ms, spec, fq, mut_self, reserved, raw_params)
@@ -1162,13 +1178,21 @@ def main():
     ap.add_argument('--out', required=True)
     ap.add_argument('--modules', default=None)
     ap.add_argument('--degrade', default=None, help='JSON file {fq: reason}')
+    ap.add_argument('--write-baseline', default=None, help='record every covered function body (D27 baseline) to this JSON file')
     a = ap.parse_args()
     mods = a.modules.split(',') if a.modules else None
     try:
         s = Splicer(a.repo, a.out, mods)
         if a.degrade:
             s.degrade = json.load(open(a.degrade))
+        bp = os.path.join(os.path.dirname(os.path.dirname(os.path.abspath(__file__))), 'contracts', 'baseline.json')
+        if a.write_baseline:
+            s.baseline_out = {}
+        elif os.path.exists(bp):
+            s.baseline = json.load(open(bp))
         s.run()
+        if a.write_baseline:
+            json.dump(s.baseline_out, open(a.write_baseline, 'w'), indent=0, sort_keys=True)
     except (SpliceError, ScanError) as e:
         print('SPLICE-ERROR: %s' % e)
         sys.exit(2)
